@@ -10,6 +10,7 @@ def check(ctx: Ctx) -> None:
     CL.r_close_order(ctx, "R08.1")
     CL.r_gather_complete(ctx, "R08.2", ("gather_and_close", "flush"))
     CL.r_forget_only_gathered(ctx, "R08.2f")
+    CL.r_fresh_members(ctx, "R08.12")
     S.r_spawner_registry_who(ctx, "R08.4")
     from .elemtrack import r_spawner_kept
     r_spawner_kept(ctx, "R08.5")
